@@ -357,6 +357,8 @@ def main(argv=None):
             else:
                 print("  [%d/%d] %s: %s %s" % (done[0], len(scs), nm, st, str(res)[:300]), flush=True)
 
+    conc_only = [s for s in scs if getattr(s, "concrete_only", False)]
+    scs = [s for s in scs if not getattr(s, "concrete_only", False)]
     pool = Pool("sym", a.jobs, pid, a.tier, seed, opts, task_timeout)
     results = pool.run([s.name for s in scs], prog)
 
@@ -468,6 +470,8 @@ def main(argv=None):
             seen.add(key)
             jobs.append((sn, inputs))
         wjobs.append((key, p))
+    for sc_ in conc_only:
+        jobs.append((sc_.name, {}))
     conc = {}
     if jobs:
         cpool = Pool("conc", a.jobs, pid, a.tier, seed, opts, opts.get("replay_timeout", 300))
@@ -525,6 +529,25 @@ def main(argv=None):
         else:
             violations.append(entry)
 
+    # ---- concrete-only scenarios (real backends / floating point; sampling, not a solver verdict)
+    cnt["concrete_only_records"] = 0
+    for sc_ in conc_only:
+        st, res = conc.get((sc_.name, "{}"), ("missing", None))
+        if st != "ok":
+            harness_errors.append("concrete-only scenario %s: %s %s" % (sc_.name, st, str(res)[:200]))
+            continue
+        if res["exc"] is not None:
+            entry = dict(scenario=sc_.name, label="exception:%s" % res["exc"][0], what="unexpected %s: %s" % (res["exc"][0], res["exc"][1]), inputs={}, exact={}, via="concrete-only")
+            k = match_known(known, sc_.name, entry["label"])
+            (known_hits.append((k, entry)) if k else violations.append(entry))
+            continue
+        for r in res["records"]:
+            cnt["concrete_only_records"] += 1
+            if r.get("bad"):
+                entry = dict(scenario=sc_.name, label=r["label"], what="observed %r expected %r %s" % (r["lhs"], r["rhs"], r.get("info") or ""), inputs={}, exact={}, via="concrete-only")
+                k = match_known(known, sc_.name, r["label"])
+                (known_hits.append((k, entry)) if k else violations.append(entry))
+
     # ---- witness validation: symbolic observation evaluated at the sample == concrete observation
     wv = dict(validated=0, mismatched=0, skipped=0)
     wmis = []
@@ -560,7 +583,7 @@ def main(argv=None):
             wv["mismatched"] += 1
 
     # one report per (scenario family, observation); further instances are counted
-    fam_of = {s.name: s.family for s in scs}
+    fam_of = {s.name: s.family for s in scs + conc_only}
     uniq = {}
     for v in violations:
         key = (fam_of.get(v["scenario"], v["scenario"]), re.sub(r"\[\d+\]$", "", v["label"]))
